@@ -61,6 +61,36 @@ CHECKS = {
         "quantifier; one open known finding (text starting with the separator tail) is excluded by construction and replayed as witness.",
         "DESIGN.md section 2 C14",
     ),
+    "C16": (
+        "exploration",
+        "owned-schedule engine (real workq + QPlugin, fake clock, drawn random.choice, harness-driven greenlet switches): exhaustive "
+        "histories <=5 ops over a reduced alphabet + Hypothesis operation lists over the full alphabet, against an observational "
+        "conservation oracle (held by one / delivered to a blocked or draining puller) after every step",
+        "Every interleaving of the stated operations is a history the harness executes deterministically; all histories up to length 5 "
+        "(thorough 6) over a 12-operation alphabet are enumerated (exhaustive sub-space), longer ones over the full alphabet are "
+        "sampled and shrunk. Finds lost/duplicated jobs as concrete replayable operation lists.",
+        "Relies on gevent's cooperative scheduling (atomic between yields) and on one request at a time per connection; socket/JSON "
+        "layer of rpcserver is not in the loop (handle_client's unwinding order is reproduced by the engine's Conn).",
+        "DESIGN.md section 2 C16-C18",
+    ),
+    "C17": (
+        "exploration",
+        "same engine with wait/re-add/late-report/dropdead operations; model-based oracle (first outcome wins, eligibility, "
+        "priority/age order when observable, waiter release, idempotent add, counters) checked after every step",
+        "Exhaustive histories <=4 (thorough 5) over a 15-operation alphabet plus sampled longer histories; the reference model is the "
+        "statement itself (first of finish/kill/timeout wins, (priority, age) order) and never predicts which blocked worker is served.",
+        "Ordering is asserted only for non-blocking pulls while no puller is blocked (queue content then observable without prediction).",
+        "DESIGN.md section 2 C16-C18",
+    ),
+    "C18": (
+        "exploration",
+        "same engine; save/restore (pickle of qserve.db) inserted at every position of every generated history, C16/C17 oracles continue "
+        "on the restored queue against the model (held -> queued, outcomes kept, deadlines kept, ids unused)",
+        "Crash/restart point enumeration over generated histories: every cut of every exhaustive history <=4 (thorough 5) operations and of "
+        "sampled longer histories.",
+        "Save/restore happens between scheduler quanta (as savedb in the server loop's finally); counters are not part of the saved state.",
+        "DESIGN.md section 2 C16-C18",
+    ),
 }
 
 NOT_YET = {}
